@@ -106,6 +106,19 @@ func (p propC04) Gen(r *Rng, tier string) *World {
 	if r.P(0.25) {
 		w.Extra["fresh_ctx"] = "1" // a new Ctx per call instead of one per request
 	}
+	if w.Cfg.Undefined && r.P(0.4) {
+		w.Extra["real_fetcher"] = "1"
+	} else if p.id == "C04" && r.P(0.15) {
+		// a custom fetcher (or values stored with Set) may hand out Go types the
+		// library's own fetchers would have normalised; Eval and TryEval must
+		// still see the same thing (never combined with the real fetcher, which
+		// normalises on construction)
+		for _, v := range w.Cfg.Vars {
+			if v.Ty == TInt && r.P(0.5) {
+				w.Calls[0].Bind[v.Name] = rawValue(g, TInt)
+			}
+		}
+	}
 	if r.P(0.7) {
 		w.EnumSplits = true
 		w.EnumFaults = r.P(0.4)
@@ -245,6 +258,9 @@ func (pr propC04) Run(w *World, st *Stats) *Violation {
 			if w.Extra["fresh_ctx"] == "1" {
 				c.Extra["fresh_ctx"] = "1"
 			}
+			if w.Extra["real_fetcher"] == "1" {
+				c.Extra["real_fetcher"] = "1"
+			}
 			return c
 		}
 
@@ -270,7 +286,21 @@ func (pr propC04) Run(w *World, st *Stats) *Violation {
 				p.FailAt = []int{failAt}
 			}
 			var o Outcome
-			if reuse {
+			if w.Extra["real_fetcher"] == "1" && w.Cfg.Undefined && failAt < 0 {
+				// the library's own map-backed fetcher (NewCtxFromVars in
+				// undefined-variable mode): a variable is available iff it is in
+				// the map handed over
+				vals := map[string]interface{}{}
+				for n, v := range p.Bind {
+					vals[n] = v.Go()
+				}
+				env := NewEnv(ops, &p)
+				env.Phase = "tryeval"
+				c.Host.CompileEnv = env // user operators find their Env here: the Ctx carries a real fetcher
+				o = c.RunCtx(eval.NewCtxFromVars(c.Conf, vals), env, p.Kind)
+				c.Host.CompileEnv = nil
+				st.Probe("real_map_fetcher_runs")
+			} else if reuse {
 				env := NewEnv(ops, &p)
 				env.Phase = "tryeval"
 				reqFetcher.E = env
@@ -435,6 +465,7 @@ func (pr propC04) Run(w *World, st *Stats) *Violation {
 				failAt = k
 				_, of := tryAt(unavail, 0)
 				failAt = -1
+				st.Probe("tryeval_runs_with_injected_seam_failure")
 				if of.Panic != nil {
 					vw := ns(unavail)
 					vw.Extra["fail_at"] = strconv.Itoa(k)
